@@ -6,6 +6,7 @@ package harness
 
 import (
 	"bytes"
+	"errors"
 	"math/big"
 	"strings"
 
@@ -124,6 +125,11 @@ func NewEngine(spec WorldSpec) *Engine {
 	return e
 }
 
+// gatedFns are the functions with an activation epoch; the node dispatches a call to them only while they are active.
+var gatedFns = map[string]bool{vmcommon.BuiltInFunctionMultiESDTNFTTransfer: true, vmcommon.BuiltInFunctionESDTNFTAddURI: true, vmcommon.BuiltInFunctionESDTNFTUpdateAttributes: true}
+
+var errInactive = errors.New("function not active in this epoch: the node does not dispatch the call")
+
 var transferFns = map[string]bool{vmcommon.BuiltInFunctionESDTTransfer: true, vmcommon.BuiltInFunctionESDTNFTTransfer: true, vmcommon.BuiltInFunctionMultiESDTNFTTransfer: true}
 
 func mismatchProps(fn string, mm Mismatch) []string {
@@ -206,7 +212,15 @@ func inFootprint(c *Call, v *Verdict, res *Result, account []byte, key string) b
 			return true
 		}
 		if strings.HasPrefix(key, pfxESDT+ts) && len(key)-len(pfxESDT+ts) <= 8 {
-			return true
+			if len(v.Suffixes) == 0 || bytes.Equal(account, vmcommon.SystemAccountAddress) {
+				return true
+			}
+			// the input names (token, nonce) pairs: only exactly those balance keys belong to its footprint
+			for _, sfx := range v.Suffixes {
+				if key == pfxESDT+sfx {
+					return true
+				}
+			}
 		}
 	}
 	return false
@@ -237,6 +251,12 @@ func (e *Engine) ExecCall(c *Call) *CallRecord {
 			rec.Res = &Result{Err: errWire}
 			return rec // stale delivery (can appear while a trace is being shrunk): skipped
 		}
+	}
+	if gatedFns[c.Fn] && m.Shards[c.Shard].Epoch < e.Spec.ActivationEpoch {
+		// not dispatched (an in-flight message simply stays pending until the function is active again)
+		rec.V = &Verdict{}
+		rec.Res = &Result{Err: errInactive}
+		return rec
 	}
 	v := m.Judge(c)
 	rec.V = v
@@ -402,7 +422,11 @@ func (e *Engine) ExecCall(c *Call) *CallRecord {
 
 	// ---- C10(c): the transfer parser's report equals what the ledger is about to move
 	if transferFns[c.Fn] {
-		add(e.parserAgreement(c, v)...)
+		add(e.parserAgreement(c, v, args2bytes(c.Args))...)
+		if !argsEqual(res.ArgsAfter, args2bytes(c.Args)) {
+			// the node parses the SAME input structure after the function ran
+			add(e.parserAgreement(c, v, res.ArgsAfter)...)
+		}
 	}
 
 	add(attachedCallCheck(e.M, c, res)...)
@@ -565,7 +589,7 @@ func firstLines(s string, n int) string {
 }
 
 // parserAgreement compares ParseESDTTransfers on the very input the function is executing with the model's items.
-func (e *Engine) parserAgreement(c *Call, v *Verdict) []Clause {
+func (e *Engine) parserAgreement(c *Call, v *Verdict, parseArgs [][]byte) []Clause {
 	var out []Clause
 	var items []Item
 	var wantRcv []byte
@@ -604,7 +628,7 @@ func (e *Engine) parserAgreement(c *Call, v *Verdict) []Clause {
 	}
 	var parsed *vmcommon.ParsedESDTTransfers
 	var err error
-	if p := noPanic(func() { parsed, err = e.parser.ParseESDTTransfers(c.Caller, c.Rcv, c.Fn, args) }); p != nil {
+	if p := noPanic(func() { parsed, err = e.parser.ParseESDTTransfers(c.Caller, c.Rcv, c.Fn, parseArgs) }); p != nil {
 		return []Clause{clause([]string{"C10", "C12"}, c.Fn+"/parser-panic", "ParseESDTTransfers panicked on %s: %v", c.String(), p)}
 	}
 	bad := func(f string, a ...interface{}) {
@@ -699,8 +723,11 @@ func (e *Engine) Apply(op Op) *CallRecord {
 			e.M.Shards[op.Shard].Gas = flattenGas(op.Gas)
 		}
 	case "epoch":
-		e.W.Shards[op.Shard].ConfirmEpoch(op.Epoch)
-		e.M.Shards[op.Shard].Epoch = op.Epoch
+		// epochs are chain-wide: every shard is told
+		for i := range e.W.Shards {
+			e.W.Shards[i].ConfirmEpoch(op.Epoch)
+			e.M.Shards[i].Epoch = op.Epoch
+		}
 	case "payable":
 		e.W.Shards[op.Shard].Payable[string(op.Addr)] = op.Mode
 		e.M.Shards[op.Shard].Payable[string(op.Addr)] = op.Mode
